@@ -170,8 +170,7 @@ def _base_skeletons():
                 ("next_age_group", ["age_group", "_period"], "next"),
                 ("next_married", ["married"], "next"),
                 ("next_assets", ["assets", "spend", "rate"], "next"),
-                ("eligible", ["age_group", "_period"], "aux"),
-                ("move_filter", ["move", "eligible"], "filter"),
+                ("move_filter", ["move", "age_group", "_period"], "filter"),
                 ("train_filter", ["train", "age_group"], "filter"),
                 ("budget_constraint", ["spend", "assets"], "constraint"),
                 ("other_constraint", ["spend", "train"], "constraint"),
@@ -220,6 +219,25 @@ def _base_skeletons():
         )
     )
     return out
+
+
+def aux_filter_skeleton():
+    """a filter that depends on the period through an auxiliary function (accepted by the validators;
+    fails when the state space is built: known finding F8, C12)"""
+    D2, D3 = ("disc", 2), ("disc", 3)
+    return Skel(
+        "filter-through-auxiliary-function",
+        2,
+        [("age_group", D3), ("assets", "lin")],
+        [("move", D2), ("spend", "lin")],
+        [
+            ("utility", ["spend", "move", "age_group", "assets", "theta"], "utility"),
+            ("next_age_group", ["age_group", "_period"], "next"),
+            ("next_assets", ["assets", "spend", "rate"], "next"),
+            ("eligible", ["age_group", "_period"], "aux"),
+            ("move_filter", ["move", "eligible"], "filter"),
+        ],
+    )
 
 
 def skeletons(tier):
